@@ -22,7 +22,7 @@ open Panrpc
 
 /-! ### the source facts these theorems rest on -/
 
-theorem cur_stok : StOk Skeleton.current := ⟨by decide, by decide, by decide, by decide⟩
+theorem cur_stok : StOk Skeleton.current := ⟨by decide, by decide, by decide, by decide, by decide, by decide⟩
 
 theorem cur_readers_select_done : Skeleton.current.stReadersSelectDone = true := by decide
 
@@ -213,17 +213,56 @@ example : run Skeleton.current (init [some { req := some 1, res := none }, none]
     before the decoder can reach a later decode error (checked against the regenerated skeleton). -/
 theorem C08_handoff_is_rendezvous : Skeleton.current.stHandoffChanCap = 0 := by decide
 
-/-- The model's `decRead` starts every frame from an empty envelope (`afterDecode` looks only at the
-    envelope just decoded).  In the source that is the `var msg Message[T]` INSIDE the decode loop
-    (checked against the regenerated skeleton): were it hoisted out, a frame that omits a member (any
-    encoder that drops empty fields) would redeliver the previous frame's, and a raw payload would be
-    decoded over the slice just handed to a read loop — behaviour that depends on the peer's encoder,
-    the chunking and the payload type, which the message API cannot show. -/
+/-- The source declares `var msg Message[T]` INSIDE the decode loop (checked against the regenerated
+    skeleton), so the model's `decRead` starts every frame from an empty envelope (`decoded` = the
+    envelope just decoded).  This is the hypothesis `StOk.fresh` of every FIFO theorem above; what
+    happens without it is `C08_hoisted_envelope_redelivers` below: a frame that omits a member (any
+    encoder that drops empty fields) redelivers the previous frame's — behaviour that depends on the
+    peer's encoder, which the message API cannot show. -/
 theorem C08_envelope_fresh_per_frame : Skeleton.current.stMsgFreshPerIteration = true := by decide
+
+/-- the source that differs from the current one only in declaring the envelope OUTSIDE the decode loop -/
+abbrev hoisted : Skeleton := { Skeleton.current with stMsgFreshPerIteration := false }
+
+/-- **The fact is needed.**  With the envelope hoisted out of the loop, the peer sends a request
+    frame `{request: 1}` and then a response frame `{response: 7}`: decoding the second frame leaves
+    the `Request` member of the first in place, and request 1 is handed to the request loop a SECOND
+    time (the run below is enabled and ends with `gotReq = [1, 1]`) although the peer sent it once
+    (`reqsOf consumed = [1]`) — the FIFO statement `C08_stream_no_loss` fails on that tree. -/
+theorem C08_hoisted_envelope_redelivers :
+    (run hoisted (init [some { req := some 1, res := none }, some { req := none, res := some 7 }])
+      [.decRead, .handReq, .decRead, .handReq, .handRes]).map
+    (fun s => (s.gotReq, s.gotRes, reqsOf s.consumed, ressOf s.consumed, s.crashed)) =
+      some ([1, 1], [7], [1], [7], false) := by
+  decide
+
+/-- … in particular the conclusion of `C08_stream_demux_order` is false in a reachable state of that tree -/
+theorem C08_hoisted_envelope_breaks_fifo :
+    ∃ inp s, Reach hoisted inp s ∧ ¬ (s.gotReq <+: reqsOf s.consumed) := by
+  refine ⟨[some { req := some 1, res := none }, some { req := none, res := some 7 }], _,
+    reach_of_run hoisted [.decRead, .handReq, .decRead, .handReq, .handRes] Reach.init rfl, ?_⟩
+  decide
+
+/-- On the current source the same two frames give the request loop request 1 ONCE: after the second
+    `decode` the decoder holds only the response (`dec = handRes 7`), the second hand-off to the request
+    loop is not a step, and the run that hands over what is there ends with `gotReq = [1]`, `gotRes = [7]`. -/
+theorem C08_fresh_envelope_delivers_once :
+    (run Skeleton.current (init [some { req := some 1, res := none }, some { req := none, res := some 7 }])
+      [.decRead, .handReq, .decRead]).map (·.dec) = some (.handRes 7) ∧
+    run Skeleton.current (init [some { req := some 1, res := none }, some { req := none, res := some 7 }])
+      [.decRead, .handReq, .decRead, .handReq, .handRes] = none ∧
+    (run Skeleton.current (init [some { req := some 1, res := none }, some { req := none, res := some 7 }])
+      [.decRead, .handReq, .decRead, .handRes]).map
+    (fun s => (s.gotReq, s.gotRes, reqsOf s.consumed, ressOf s.consumed, s.crashed)) =
+      some ([1], [7], [1], [7], false) := by
+  decide
 
 end Panrpc.St
 
 #print axioms Panrpc.St.C08_envelope_fresh_per_frame
+#print axioms Panrpc.St.C08_hoisted_envelope_redelivers
+#print axioms Panrpc.St.C08_hoisted_envelope_breaks_fifo
+#print axioms Panrpc.St.C08_fresh_envelope_delivers_once
 
 #print axioms Panrpc.St.C08_handoff_is_rendezvous
 #print axioms Panrpc.St.C08_stream_demux_order
